@@ -318,6 +318,101 @@ def r5(ctx, prog):
                 'no deferred delete found, or the deferred task captures a pointer that is still registered (%s)' % [os_ for l, os_ in deferred]), where=f.loc(f.body))
 
 
+def r10(ctx, prog):
+    ctx.rule('C06.R10', 'A10 result trichotomy and thresholds by folding: every test of a read()/write() result in BufferedFd splits {-1, 0, 1, 2} as "data" (>= 1), "end of '
+             'stream" (== 0) or "error" (< 0) — bytes are committed and the drain loop continues exactly on >= 1, the close is reported exactly on 0; readv() is given as '
+             'many iovecs as the array holds; the receive callback is due exactly when readable >= threshold; enable() arms the write event exactly when something is '
+             'queued; a write result >= 0 is consumed', floor=6)
+    f = prog.fn1(B + '::onReadCallback')
+    w = prog.fn1(B + '::onWriteCallback')
+    en = prog.fn1(B + '::enable')
+    DOM = (-1, 0, 1, 2)
+    def vec(g, cond, k, var):
+        is_v = lambda sx: (sx['k'] == 'DeclRefExpr' and sx.get('n') == var) or \
+            (sx['k'] == 'BinaryOperator' and sx.get('op') == '=' and (g.s(g.strip_casts(sx['ch'][0])) or {}).get('n') == var)
+        if not any(is_v(g.stmts[x]) for x in g.walk(cond)):
+            return None
+        out = []
+        for v in DOM:
+            r = q.eval_expr(g, cond, lambda sx, v=v: v if is_v(sx) else None, signed=True)
+            if r is None:
+                return None
+            out.append(bool(r) == (k == 0))
+        return tuple(out)
+    DATA, ZERO, ERR = (False, False, True, True), (False, True, False, False), (True, False, False, False)
+    NOT = lambda t: tuple(not x for x in t)
+    LEGAL = {DATA, ZERO, ERR, NOT(DATA), NOT(ZERO), NOT(ERR)}
+    n = 0
+    for g, var in ((f, 'rsize'), (w, 'wsize')):
+        for blk in g.cfg.blocks.values():
+            if blk.cond is None:
+                continue
+            v = vec(g, blk.cond, 0, var)
+            if v is None:
+                continue
+            n += 1
+            ctx.ob('C06.R10', '%s|%s-test@%s' % (g.short, var, g.loc(blk.cond).split(':')[-1]), v in LEGAL, 'splits the result at one of -1|0, 0|1' if v in LEGAL else
+                   'the test of %s does not separate "error" (< 0), "end of stream" (0) and "data" (>= 1): truth for -1, 0, 1, 2 is %s — a one-byte read is taken for an error, or '
+                   'end of stream for data' % (var, v), where=g.loc(blk.cond))
+    # commits and the drain loop only on data
+    rb = lambda fn: [st for st in f.calls() if st.get('fn') == fn and 'obj' in st and (f.field_of(st['obj']) or '').endswith('BufferedFd::recv_buff_')]
+    for h in rb('hasWritten') + rb('append'):
+        vs = [vec(f, c, k, 'rsize') for c, k, b in f.cfg.controlling_branches(q.pt(f, h))]
+        vs = [v for v in vs if v is not None]
+        ok = any(v == DATA for v in vs)
+        ctx.ob('C06.R10', 'onReadCallback|commit-on-data@%s' % f.loc(h['i']).split(':')[-1], ok, 'bytes are committed only under rsize >= 1' if ok else
+               'bytes are committed to recv_buff_ without an rsize >= 1 edge in force', where=f.loc(h['i']))
+    loops = [st for st in f.stmts if st and st['k'] in ('DoStmt', 'WhileStmt') and st.get('cond') is not None and any(h['i'] in set(f.walk(st['i'])) for h in rb('hasWritten'))]
+    for lp in loops:
+        v = vec(f, lp['cond'], 0, 'rsize')
+        ctx.ob('C06.R10', 'onReadCallback|drain-while-data', v == DATA, 'the drain loop goes on exactly while a read returned >= 1 byte' if v == DATA else
+               'the drain loop goes on for results %s of -1, 0, 1, 2: it spins at end of stream, or stops with a byte read but not committed' % (v,), where=f.loc(lp['cond']))
+    for i in q.invokes(f, 'read_zero_cb_'):
+        vs = [vec(f, c, k, 'rsize') for c, k, b in f.cfg.controlling_branches(q.pt(f, i))]
+        ok = any(v == ZERO for v in vs if v is not None)
+        ctx.ob('C06.R10', 'onReadCallback|close-on-zero', ok, 'the peer close is reported exactly on rsize == 0' if ok else 'read_zero_cb_ is not under an rsize == 0 edge', where=f.loc(i['i']))
+    # readv(iov, cnt): cnt == number of elements of the iovec array
+    for c in f.calls():
+        if c.get('fn') == 'readv' and len(c.get('args', [])) == 2:
+            a0 = f.s(f.strip_casts(c['args'][0]))
+            cnt = (f.s(c['args'][1]) or {}).get('cv')
+            arr = None
+            for st in f.stmts:
+                if st and st['k'] == 'DeclStmt':
+                    for d in st['decls']:
+                        if a0 is not None and d.get('d') == a0.get('d'):
+                            import re
+                            m = re.search(r'\[(\d+)\]', d.get('ct') or d.get('t') or '')
+                            arr = int(m.group(1)) if m else None
+            n += 1
+            ctx.ob('C06.R10', 'onReadCallback|iov-count@%s' % f.loc(c['i']).split(':')[-1], arr is not None and cnt == arr, 'readv() is given the %s elements of its iovec array' % arr if arr is not None and cnt == arr else
+                   'readv() is told %s iovecs, the array has %s' % (cnt, arr), where=f.loc(c['i']))
+    # threshold
+    for blk in f.cfg.blocks.values():
+        if blk.cond is not None and any(x.endswith('receive_threshold_') for x in q.subtree_fields(f, blk.cond)):
+            bad = []
+            for size in range(0, 4):
+                for thr in range(0, 4):
+                    r = q.eval_expr(f, blk.cond, lambda sx, size=size, thr=thr: thr if (sx['k'] == 'MemberExpr' and sx.get('n') == 'receive_threshold_') else
+                                    (size if (sx['k'] in q.CALL_KINDS and sx.get('fn') == 'readableSize') else None))
+                    if r is None or bool(r) != (size >= thr):
+                        bad.append((size, thr))
+            n += 1
+            ctx.ob('C06.R10', 'onReadCallback|threshold', not bad, 'the receive callback is due exactly when readable >= threshold' if not bad else
+                   'with %d readable byte(s) and a threshold of %d the callback is %s' % (bad[0][0], bad[0][1], 'withheld' if bad[0][0] >= bad[0][1] else 'invoked early'), where=f.loc(blk.cond))
+    # enable(): arm iff queued
+    for c in wev(en, 'enable'):
+        for cond, k, b in en.cfg.controlling_branches(q.pt(en, c)):
+            if any(st.get('fn') == 'readableSize' for st in q.subtree_calls(en, cond)):
+                bad = [v for v in range(0, 4) if (bool(q.eval_expr(en, cond, lambda sx, v=v: v if (sx['k'] in q.CALL_KINDS and sx.get('fn') == 'readableSize') else None)) == (k == 0)) != (v >= 1)]
+                n += 1
+                ctx.ob('C06.R10', 'enable|arm-iff-queued', not bad, 'enable() arms the write event exactly when at least one byte is queued' if not bad else
+                       'with %d byte(s) queued before enable() the write event is %s: the bytes sent before the descriptor was enabled never leave' % (bad[0], 'not armed' if bad[0] >= 1 else 'armed'),
+                       where=en.loc(cond))
+    if n < 6:
+        raise AnalysisBroken('expected >= 6 result/threshold tests in BufferedFd, found %d' % n)
+
+
 def run(ctx):
     prog = extract('ALL' if ctx.tier == 'thorough' else SCOPE)
     ctx.guard(r1, ctx, prog)
@@ -325,6 +420,7 @@ def run(ctx):
     ctx.guard(r3, ctx, prog)
     ctx.guard(r4, ctx, prog)
     ctx.guard(r5, ctx, prog)
+    ctx.guard(r10, ctx, prog)
     # the send queue and the receive buffer are util::Buffer objects: the byte stream is only in order / lossless if the buffer's
     # window arithmetic is right, so the Buffer rules of C07 are part of this check as well (ids C06.B1..B4)
     from rules import C07
